@@ -362,7 +362,15 @@ class Check:
         else:
             self.drifts[key] = (what, 1)
 
+    # non-vacuity floors (quick tier; about 40% of what the checks cover on the unchanged tree): a run that explores
+    # far less than that without reporting a violation did not decide the property - it is a tool error, not a pass
+    FLOORS = {"C01": 600, "C02": 900, "C03": 1000, "C04": 8000, "C05": 250, "C06": 10, "C07": 90000, "C08": 150, "C09": 140,
+              "C10": 1200, "C11": 450, "C12": 12000, "C13": 30, "C14": 600, "C15": 70, "C16": 350, "C17": 10, "C18": 8}
+
     def finish(self):
+        if not self.violations and self.cov.get("distinct_nontrivial", 0) < self.FLOORS.get(self.pid, 0):
+            raise ToolError("coverage collapsed: %d non-trivial cases, at least %d expected - the check would be vacuous" % (
+                self.cov.get("distinct_nontrivial", 0), self.FLOORS[self.pid]))
         os.makedirs(EVID, exist_ok=True)
         os.makedirs(REPLAYS, exist_ok=True)
         wall = time.time() - self.t0
